@@ -69,21 +69,28 @@ def ident(fn):
 
 def view_func(W, f):
     chain = []
+    objs = []
     cur = f
     guard = 0
     while True:
         chain.append(role_of(W, cur))
+        objs.append(cur)
         guard += 1
         if not hasattr(cur, "__wrapped__") or guard > 50:
             break
         cur = cur.__wrapped__
+    # the wrapper whose code evaluates the contracts (it reads the lists off itself) ...
+    enforcing = next((o for o, r in zip(objs, chain) if r == ["checker"]), None)
+    # ... and what the introspection interface hands out
     ch = icontract._checkers.find_checker(f)
-    if ch is None:
-        return {"chain": chain, "pre": [], "snaps": [], "post": []}
+    intro = ch is enforcing
+    if enforcing is None:
+        return {"chain": chain, "pre": [], "snaps": [], "post": [], "intro": intro}
     return {"chain": chain,
-            "pre": [[ident(c.condition) for c in g] for g in getattr(ch, "__preconditions__", [])],
-            "snaps": [ident(s.capture) for s in getattr(ch, "__postcondition_snapshots__", [])],
-            "post": [ident(c.condition) for c in getattr(ch, "__postconditions__", [])]}
+            "pre": [[ident(c.condition) for c in g] for g in getattr(enforcing, "__preconditions__", [])],
+            "snaps": [ident(s.capture) for s in getattr(enforcing, "__postcondition_snapshots__", [])],
+            "post": [ident(c.condition) for c in getattr(enforcing, "__postconditions__", [])],
+            "intro": intro}
 
 
 def view_member(W, cls, name):
